@@ -903,8 +903,10 @@ def shrink_candidates(case):
         if len(ops) - n > 6:
             break
     for i in range(len(ops)):                       # drop one op that creates no sequence
-        if ops[i][0] not in CREATE:
+        if ops[i][0] not in CREATE and ops[i][0] not in TRACT:
             yield mk_hist(shape, ops[:i] + ops[i + 1:], 'shrunk')
+    if any(o[0] in TRACT for o in ops):             # tractogram operations create several sequences: keep the numbering
+        return
     for i in range(len(ops)):                       # drop a creator nobody refers to later
         if ops[i][0] in CREATE:
             sid = sum(1 for o in ops[:i] if o[0] in CREATE)
